@@ -353,7 +353,8 @@ def gen_script(rng):
     return settings, ops
 
 
-# regression scripts: F11 in both dictionary orders; data in the pipe at reap time
+# regression scripts: F11 in both dictionary orders; data in the pipe at reap time (F29, fixed in /repo 80611c2:
+# finish() flushes the bytes held back for tag matching; a recurrence is a plain violation)
 SCRIPTS = [
     ([{'redirect': False, 'capture': 0}] * 3, [['spawn', 0, 'forkfail'], ['spawn', 1, 'ok'], ['write', 1, 'stdout', 30], ['write', 1, 'stderr', 30], ['deliver'], ['exit', 1, False]]),
     ([{'redirect': False, 'capture': 0}] * 3, [['spawn', 1, 'forkfail'], ['spawn', 0, 'ok'], ['write', 0, 'stdout', 30], ['write', 0, 'stderr', 30], ['deliver'], ['exit', 0, False]]),
